@@ -143,7 +143,7 @@ def _signature(text: str, spec: Optional[Spec] = None) -> str:
                 left = "" if name[:1].isupper() and not name.isupper() else r"(?<![A-Za-z])"
                 ln = re.sub(left + re.escape(name) + r"(?![a-z])", ph, ln)
             ln = re.sub(r"\d+", "N", ln)
-            return re.sub(r"\s+", " ", ln).strip()[:140]
+            return re.sub(r"\s+", " ", ln).strip()[:220]
     return re.sub(r"\s+", " ", text.strip()[:80])
 
 
